@@ -94,7 +94,9 @@ AXES = [
         ("Title", "a:b"), ("TitleUnicode", "a:b"), ("Artist", "a:b"), ("ArtistUnicode", "a:b"), ("Creator", "a:b"), ("Version", "a:b"),
         ("Source", "a:b"), ("Tags", "a:b c"), ("AudioFilename", "a:b.mp3"), ("Title", "a: b :c"), ("Version", "a: b :c"),
         ("TitleUnicode", "日本語"), ("Creator", "日本語"), ("Version", "日本語 x"), ("Title", "  lead"),
-        ("Source", ""), ("Tags", "")]]),
+        ("Source", ""), ("Tags", ""),
+        # tags are separated by the ASCII space only: other white space belongs to the tag
+        ("Tags", "東方\u3000Project b"), ("Tags", "a\u00a0b c"), ("Tags", "a\tb c"), ("Title", "x ~mix~ \\ y")]]),
     ("meta_num", [("preview", _meta("PreviewTime", "86398")), ("leadin", _meta("AudioLeadIn", "500")), ("hp0", _meta("HPDrainRate", "0")),
                   ("ids", lambda d: d["meta"].update(BeatmapID="2062527", BeatmapSetID="-1")), ("sampleset_none", _meta("SampleSet", "None"))]),
     ("samples", [("one", _samples([(24565, "clap.wav", 70)])), ("two_same_time", _samples([(100, "a.wav", 70), (100, "b.wav", 30)])),
